@@ -19,6 +19,7 @@ import KiraModel.Exec.SuiteChan
 import KiraModel.Exec.SuiteStorage
 import KiraModel.Exec.SuiteLife
 import KiraModel.Exec.SuiteDeliver
+import KiraModel.Exec.SuiteStream
 
 open K.Exec K.Exec.Clock K.Exec.Wav K.Exec.FxA K.Exec.FxB K.Exec.Mix
 
@@ -55,6 +56,7 @@ def suiteOf (name : String) : Option Suite :=
   | "storage" => some { σ := StoState, init := {}, step := withSeq storageStep }
   | "life" => some { σ := LifeState, init := {}, step := withSeq lifeStep }
   | "deliver" => some { σ := DeliverState, init := {}, step := withSeq deliverStep }
+  | "stream" | "decthread" => some { σ := K.Exec.Strm.StrmState, init := {}, step := K.Exec.Strm.strmStep }
   | _ => none
 
 def tokens (line : String) : List String :=
